@@ -1,13 +1,17 @@
 """C02 - segmentation is lossless, ordered and correctly bracketed.
 
 R02.1 (BytesAI) the slices emitted by the segmenter partition [0, S) in order: first slice starts at 0, each slice is
-      [start, start+n) with n >= 1 inside the body, the next start is start+n (loop-carried), `start + remaining == S`
-      is an inductive invariant and the loop exits only with remaining == 0  =>  nothing dropped, duplicated or moved.
+      [start, start+n) with n >= 1 inside the body, the next start is start+n (loop-carried) and the loop exits only
+      when everything was emitted - proved at an arbitrary iteration under the inductive invariants the loop admits
+      (`start + remaining == S` for the two-counter form, `start <= S` for a single position variable)
+      =>  nothing dropped, duplicated or moved.
 R02.2 (BytesAI) predecessor bit <=> start > 0, successor bit <=> start + n < S, on every path.
 R02.3 (effects) the record kind, type byte and body are read-only after construction; the per-class type byte is
       stored on the receiver class and computed from that class's constant.
-R02.4 (CFG) records and, nested inside, their segments are consumed strictly in iteration order; the body handed to
-      the segmenter is the unmodified result of _make_body_bytes.
+R02.4 (inlined value-flow summary of the writer's entry method) what reaches the output buffer is produced inside
+      `for record in <the records given>` and, nested in it, `for segment in <that record's bytes>.<segmenter>(...)` -
+      the iterables themselves, not a sorted / reversed / sliced rearrangement; the body handed to the segmenter is the
+      unmodified result of _make_body_bytes.
 """
 
 from __future__ import annotations
